@@ -137,6 +137,34 @@ func checkC04(s *Scenario) (fail *Failure, obs *totObs) {
 			if healthy && err != nil {
 				return &Failure{Check: "format-err", Observed: fmt.Sprintf("Format on a healthy writer returned %v", err)}
 			}
+			// the remaining exported entry points, as a caller may use them: the
+			// RenderHTML convenience function, AppendBlock into a nil / a short
+			// dst, Walk with neither callback, Walk from every root block
+			begin("render")
+			sw2, w2 := newSimWriter(s.Writer)
+			err2 := commonmark.RenderHTML(w2, tree, rrefs)
+			obs.Writes += sw2.Calls
+			if healthy && err2 != nil {
+				return &Failure{Check: "render-err", Observed: fmt.Sprintf("RenderHTML on a healthy writer returned %v", err2)}
+			}
+			if len(s.Renders) > 0 {
+				r0 := makeRenderer(&s.Renders[0], rrefs)
+				var dst []byte
+				for bi, b := range tree {
+					if bi%2 == 0 {
+						dst = nil
+					} else {
+						dst = make([]byte, 1, 2)
+					}
+					dst = r0.AppendBlock(dst, b)
+				}
+			}
+			end()
+			begin("walk")
+			for _, b := range tree {
+				commonmark.Walk(b.AsNode(), &commonmark.WalkOptions{})
+			}
+			end()
 			if s.Walk != nil {
 				begin("walk")
 				v := makeView(s.Walk, tree)
